@@ -73,7 +73,7 @@ def run(tier):
             if flavour == 'pytz' and I == 5:
                 chk.sample({'model_case': {k: cases[len(cases) // 2][k] for k in ('I', 'H', 'chg', 'vals', 'recorded', 'items', 'all', 'env')}})
     # ---- 2. real zones of the installed libraries: completeness against the library's own transition table, item fidelity
-    ranges = [(2000, 2038, 22), (2005, 2010, 24), (2000, 2006, 48), (2009, 2012, 36)] if tier == 'quick' else [(2000, 2038, 22), (2005, 2010, 24), (2000, 2020, 6), (2010, 2038, 48), (2000, 2038, 1)]
+    ranges = [(2000, 2038, 22), (2005, 2010, 24), (2000, 2006, 48), (2009, 2012, 36), (2000, 2004, 22)] if tier == 'quick' else [(2000, 2038, 22), (2005, 2010, 24), (2000, 2020, 6), (2010, 2038, 48), (2000, 2038, 1), (2000, 2006, 36), (2000, 2004, 22)]
     import pytz
     zones_by = {'pytz': sorted(pytz.all_timezones)}
     zl = os.path.join(common.REPO, 'tools', 'compare_pytz', 'zones.txt')
@@ -89,7 +89,7 @@ def run(tier):
             tag = '%s_%d_%d_%d' % (flavour, a, b, h)
             sp = os.path.join(work, 'real_%s.json' % tag)
             op = os.path.join(work, 'realout_%s.json' % tag)
-            json.dump({'flavour': flavour, 'zones': zones_by[flavour], 'start': a, 'until': b, 'interval': h, 'full': (a, b, h) == ranges[0]}, open(sp, 'w'))
+            json.dump({'flavour': flavour, 'zones': zones_by[flavour], 'start': a, 'until': b, 'interval': h, 'full': (a, b, h) in (ranges[0], (2000, 2004, 22))}, open(sp, 'w'))
             rc, out, err, _ = common.run_cmd([common.PY, DRV, 'real', sp, op], env=env, timeout=6000)
             if rc != 0:
                 chk.violation('%s:real-crash' % flavour, 'generator driver failed on real zones: %s' % err[-1200:], {'stderr': err[-2500:]})
@@ -119,6 +119,12 @@ def run(tier):
                     chk.violation('%s:%s:monthly-sample' % (flavour, z), 'no sample item for the first of %s' % miss[:4], {'zone': z})
                 if [y for y in range(a, b) if y not in ye]:
                     chk.violation('%s:%s:year-end-sample' % (flavour, z), 'no year-end item for %s' % [y for y in range(a, b) if y not in ye][:4], {'zone': z})
+            if (a, b, h) == (2000, 2004, 22):
+                # a short range rendered with its own year bounds: items whose local date lies outside [start, until) (the
+                # instant is inside) must be rendered like any other
+                full = {zz: rr['full_items'] for zz, rr in sorted(zr.items()) if rr.get('full_items')}
+                edge = [zz for zz, its in full.items() if any(it['y'] >= b or it['y'] < a for it in its)]
+                rendered['%s-%d-%d' % (flavour, a, b)] = {zz: full[zz] for zz in sorted(set(edge + sorted(full)[:5]))}
             if (a, b, h) == ranges[0]:
                 # data set to render: a set of zones that between them show every (UTC offset, DST offset) pair and every
                 # abbreviation the library exhibits anywhere (greedy cover); every zone in the thorough tier
@@ -191,11 +197,12 @@ def run(tier):
 logging.disable(logging.CRITICAL)
 from validation.arvalgenerator import ArduinoValidationGenerator
 td = json.load(open(sys.argv[1]))
-vd = {'start_year': 2000, 'until_year': 2038, 'source': 'pytz', 'version': 'x', 'has_valid_abbrev': True, 'has_valid_dst': True, 'test_data': td}
+vd = {'start_year': int(sys.argv[3]), 'until_year': int(sys.argv[4]), 'source': 'pytz', 'version': 'x', 'has_valid_abbrev': True, 'has_valid_dst': True, 'test_data': td}
 ArduinoValidationGenerator(invocation='x', tz_version='x', scope='extended', db_namespace='zonedbx', validation_data=vd, blacklist={}).generate_files(sys.argv[2])
 ''')
         json.dump(rendered, open(os.path.join(rd, 'td.json'), 'w'))
-        rc, out, err, _ = common.run_cmd([common.PY, drv, os.path.join(rd, 'td.json'), rd], env=env, timeout=600)
+        ry = rflavour.split('-')[1:] if '-' in rflavour else ['2000', '2038']
+        rc, out, err, _ = common.run_cmd([common.PY, drv, os.path.join(rd, 'td.json'), rd] + ry, env=env, timeout=600)
         if rc != 0:
             chk.violation('render:%s:crash' % rflavour, 'ArduinoValidationGenerator failed: %s' % err[-1000:], {})
         else:
@@ -212,7 +219,17 @@ ArduinoValidationGenerator(invocation='x', tz_version='x', scope='extended', db_
                 chk.violation('render:%s:does-not-compile' % rflavour, 'rendered validation tables do not compile: %s' % p.stdout[-1200:], {})
             else:
                 rc, out, err, _ = common.run_cmd([exe], timeout=300)
-                back = json.loads(out)
+                # the stated number of items of every zone equals the number of rows written (the reader trusts numItems)
+                vtxt = open(os.path.join(rd, 'validation_data.cpp')).read()
+                for m in re.finditer(r'ValidationItem kValidationItems(\w+)\[\] = \{(.*?)\n\};\s*const testing::ValidationData kValidationData\1 = \{\s*(\d+) /\*numItems\*/', vtxt, re.S):
+                    nrows = len(re.findall(r'^\s*\{', m.group(2), re.M))
+                    if nrows != int(m.group(3)):
+                        chk.violation('render:%s:%s:numItems' % (rflavour, m.group(1)), 'validation_data.cpp states numItems = %s for %s but writes %d rows' % (m.group(3), m.group(1), nrows), {'zone': m.group(1)})
+                try:
+                    back = json.loads(out)
+                except ValueError:
+                    chk.violation('render:%s:unreadable' % rflavour, 'the rendered tables cannot be read back (rows and numItems inconsistent)', {})
+                    continue
                 for n in names:
                     want = [[it['epoch'], it['total_offset'] // 60 if it['total_offset'] >= 0 else -((-it['total_offset']) // 60), it['dst_offset'] // 60 if it['dst_offset'] >= 0 else -((-it['dst_offset']) // 60),
                              it['y'], it['M'], it['d'], it['h'], it['m'], it['s'], it['abbrev'], it['type']] for it in rendered[n]]
